@@ -97,6 +97,11 @@ class DualSource(LazySource):
         self.exhausted = True
 
 
+#: a class based source without any ``aclose``: nothing to close at the end - everything else as usual (a child that is
+#: done stops buffering, whatever its source can or cannot do)
+NoCloseSource = type("NoCloseSource", (), {k: v for k, v in LazySource.__dict__.items() if k != "aclose"})
+
+
 @st.composite
 def configs(draw, tier):
     n = draw(st.integers(2, 4))
@@ -112,6 +117,7 @@ def configs(draw, tier):
             "between": draw(st.booleans()), "close_after_cancel": draw(st.booleans()),
             "dual": draw(st.sampled_from([False, False, True])),
             "late_index": draw(st.sampled_from([False, False, True])),
+            "noclose": draw(st.sampled_from([False, False, True])),
             # nested: child 0 is not consumed directly but handed, un-advanced, to a second tee with a lock of its own
             "nested": draw(st.sampled_from([0, 0, 0, 2, 3])) if n <= 3 else 0,
             "choices": draw(st.lists(st.integers(0, 3), max_size=60))}
@@ -120,7 +126,8 @@ def configs(draw, tier):
 def run_config(case, choices=None, default="rr"):
     ctx = Ctx("a")
     n = case["n"]
-    src = (DualSource if case.get("dual") else LazySource)(ctx, case["length"], case["susp"])
+    src = (DualSource if case.get("dual") else NoCloseSource if case.get("noclose") else LazySource)(
+        ctx, case["length"], case["susp"])
     lock = Lock(ctx, "lock", suspend_uncontended=case["lock_susp"],
                 release_susp=case.get("lock_release_susp", False)) if case["lock"] else None
     if lock is not None and case.get("lock_falsy"):
@@ -266,7 +273,7 @@ def run_config(case, choices=None, default="rr"):
                 if lk.locked or lk.waiters or lk.acquired != lk.released or lk.errors:
                     return sched, [("lock-not-free-at-quiescence",
                                     f"locked={lk.locked} acquired={lk.acquired} released={lk.released}")], contention[0]
-            if not (src.closed or src.exhausted):
+            if not (src.closed or src.exhausted) and not case.get("noclose"):  # (nothing to close there)
                 return sched, [("source-not-closed-after-last-child", f"state={state}")], contention[0]
             if src.alive() > n + 1:
                 return sched, [("items-alive-after-all-children-done", f"alive={src.alive()}")], contention[0]
